@@ -9,6 +9,7 @@ import (
 	"crypto/elliptic"
 	"crypto/sha256"
 	"encoding/binary"
+	"errors"
 	"fmt"
 	"io"
 	"runtime/debug"
@@ -242,6 +243,26 @@ func (w *world) Run(t *rt.Tape, trace bool) *core.Result {
 // two protocol sessions at once (two tasks per process sharing the package's
 // circuit and its scratch pool), interleaved by the scheduler between any two
 // steps - a server handling two clients.
+// failingReader delivers left bytes and then fails: an entropy source with a transient error.
+type failingReader struct {
+	r    io.Reader
+	left int
+}
+
+var errEntropy = errors.New("simrand: entropy source failed")
+
+func (f *failingReader) Read(p []byte) (int, error) {
+	if f.left <= 0 {
+		return 0, errEntropy
+	}
+	if len(p) > f.left {
+		p = p[:f.left]
+	}
+	n, err := f.r.Read(p)
+	f.left -= n
+	return n, err
+}
+
 func (w *world) protocol(t *rt.Tape, trace bool, res *core.Result, smp *sample, curve elliptic.Curve, a, b [32]byte) *core.Failure {
 	smp.Mode = "protocol with crash/restart pattern"
 	nSess := 1
@@ -268,11 +289,15 @@ func (w *world) protocol(t *rt.Tape, trace bool, res *core.Result, smp *sample, 
 		digest       [32]byte
 		gDone, eDone bool
 		restarts     string
+		entropyFail  int // >= 0: the first attempt at round 3 gets a randomness source that fails after that many bytes; the garbler then tries again
 	}
 	rH := simrand.Stream("harness2")
 	ss := make([]*sess, nSess)
 	for i := range ss {
-		x := &sess{pattern: t.Choose(rt.SFault, 32), a: a, b: b}
+		x := &sess{pattern: t.Choose(rt.SFault, 32), a: a, b: b, entropyFail: -1}
+		if t.Choose(rt.SFault, 5) == 0 {
+			x.entropyFail = t.Choose(rt.SFault, 9000)
+		}
 		if t.Choose(rt.SFault, 8) == 0 {
 			x.pattern = 31
 		}
@@ -369,6 +394,14 @@ func (w *world) protocol(t *rt.Tape, trace bool, res *core.Result, smp *sample, 
 					m2, err := sha2pc.DecodeRound2(curve, b2)
 					if err != nil {
 						return err
+					}
+					if x.entropyFail >= 0 {
+						// fail, then carry on: the entropy source fails once in the middle of round 3
+						// (a read error from the OS); the server tries the round again
+						_, ferr := sha2pc.GarblerRound3(&failingReader{r: rng, left: x.entropyFail}, curve, gs, x.a, m2)
+						if ferr != nil {
+							rt.Reach("fail-then-carry-on.round3-failed-for-lack-of-randomness")
+						}
 					}
 					m3, err := sha2pc.GarblerRound3(rng, curve, gs, x.a, m2)
 					if err != nil {
